@@ -41,6 +41,12 @@ def concrete_reference(prog, argbits):
             args.append(z3.BitVecVal(b, 32))
         elif lang.is_float(t):
             args.append(z3.fpBVToFP(z3.BitVecVal(b, 32 if t == "f32" else 64), lang.FLOATS[t]))
+        elif isinstance(t, tuple) and t[0] == "opt":
+            # extractor convention: bit 63 set = None, else Some(low bits)
+            if b >> 63:
+                args.append(lang.EnumVal(t, 1, {1: []}))
+            else:
+                args.append(lang.EnumVal(t, 0, {0: [z3.BitVecVal(b, lang.INTS[t[1]][0])]}))
         else:
             raise ValueError(t)
 
@@ -60,6 +66,13 @@ def concrete_reference(prog, argbits):
 
 
 def fmt_val(ty, v):
+    if isinstance(ty, tuple) and ty[0] in ("opt", "verdict"):
+        names = ["Some", "None"] if ty[0] == "opt" else ["Accept", "Reject"]
+        tag = v.tag if isinstance(v.tag, int) else z3.simplify(v.tag).as_long()
+        fts = [[ty[1]], []] if ty[0] == "opt" else [[ty[1]], [ty[2]]]
+        if not fts[tag]:
+            return names[tag]
+        return {names[tag]: fmt_val(fts[tag][0], v.payloads[tag][0])}
     if ty == "unit":
         return "unit"
     if ty == "bool":
@@ -72,22 +85,8 @@ def fmt_val(ty, v):
     return None
 
 
-def confirm(prog, script, finding):
-    """Replay a solver model against the real JIT-compiled function. Returns (confirmed: bool, details)"""
-    entry = [f for f in prog.fns if f.name == prog.entry][0]
-    sig = tv.sig_of(entry)
-    args = finding["args"]
-    kind = finding["kind"]
-    if kind == "trap":
-        r = tv.run_real(script, "main", sig, args, child=True)
-        return (r.get("signal") is not None), r
-    r = tv.run_real(script, "main", sig, args, child=True)
-    if r.get("signal") is not None or r.get("out") is None:
-        return True, {"real": r, "note": "process died"}
-    real = r["out"]
-    if "error" in real:
-        return False, {"real": real}
-    if kind == "ledger":
+def confirm_ledger(real):
+    if True:
         # simulate the real create/clone/drop log: imbalance, double drop, or any use of a dropped / never-created id
         state, problems = {}, []
         for e in real["events"]:
@@ -113,6 +112,25 @@ def confirm(prog, script, finding):
         if leaked:
             problems.append(f"never dropped: {leaked}")
         return bool(problems), {"problems": problems[:10], "events": real["events"][:60]}
+
+
+def confirm(prog, script, finding):
+    """Replay a solver model against the real JIT-compiled function. Returns (confirmed: bool, details)"""
+    entry = [f for f in prog.fns if f.name == prog.entry][0]
+    sig = tv.sig_of(entry)
+    args = finding["args"]
+    kind = finding["kind"]
+    if kind == "trap":
+        r = tv.run_real(script, "main", sig, args, child=True)
+        return (r.get("signal") is not None), r
+    r = tv.run_real(script, "main", sig, args, child=True)
+    if r.get("signal") is not None or r.get("out") is None:
+        return True, {"real": r, "note": "process died"}
+    real = r["out"]
+    if "error" in real:
+        return False, {"real": real}
+    if kind == "ledger":
+        return confirm_ledger(real)
     st, v, trace = concrete_reference(prog, args)
     if st != "ok":
         return False, {"reference": "undefined on these inputs", "real": real}
@@ -121,6 +139,12 @@ def confirm(prog, script, finding):
         got = real["ret"]
         if want is None:
             return True, {"real": real, "note": "aggregate result; solver verdict kept (no scalar to compare)"}
+        if isinstance(want, dict) or isinstance(got, dict) or want in ("None", "Some", "Accept", "Reject"):
+            def norm(x):
+                if isinstance(x, dict):
+                    return {k: norm(v) for k, v in x.items()}
+                return int(x, 16) if isinstance(x, str) and x.startswith("0x") else x
+            return norm(want) != norm(got), {"want": want, "got": got}
         if lang.is_float(entry.ret):
             # all NaNs are one value
             def isnan(h, w):
